@@ -160,6 +160,20 @@ pub fn sweep_c15(tier: &str, seed: u64, only: &str) -> (usize, Vec<String>) {
                 }
                 inputs.push(m);
             }
+            // two faults: a parse error at q, and a multi-byte character a power-of-two-ish distance after it (error paths that cut
+            // the remaining text at a fixed byte count must cut on a character boundary)
+            if b.len() < 1200 {
+                for q in 0..b.len() {
+                    for d in [7usize, 8, 15, 16, 31, 32, 58, 59, 60, 61, 62, 63, 64, 65, 66, 127, 128, 255, 256] {
+                        if q + d > b.len() { continue; }
+                        let mut m = b.clone();
+                        m[q] = b'#';
+                        let ch = "\u{e9}".as_bytes();
+                        m.insert(q + d, ch[0]); m.insert(q + d + 1, ch[1]);
+                        inputs.push(m);
+                    }
+                }
+            }
             // line-level mutations: one row longer / shorter than the others (ragged matrices), a repeated line, a missing line
             let lines: Vec<&[u8]> = b.split_inclusive(|&c| c == b'\n').collect();
             for li in 0..lines.len() {
